@@ -153,6 +153,8 @@ def main(argv=None):
         for k, v in r.get("exhaustive", {}).items():
             exhaustive[k] = exhaustive.get(k, True) and v
         truncated += 1 if r.get("truncated") else 0
+        for why in r.get("inconclusive", []):
+            inconclusive.append(f"shard {s.get('i')} ({s.get('kind')}): {why}")
 
     # samples: round-robin over shards so that every workload kind is represented
     sample_kinds = set()
